@@ -17,7 +17,7 @@ var c02Templates = []string{
 	"g(f(X), Y)", "g(Y, f(X))", "g(X, f(X))", "g(f(Y), f(k0))", "[X|Y]", "[k0, k1]", "[X, Y]", "[X|[Y]]", "[k0|X]", "[]",
 	"\"ab\"", "[a, b]", "[a|X]", "'.'(a, '.'(b, []))", "'.'(X, Y)", "[X, Y|Z]", "\"a\"", "[Z]", "g([X], Y)", "f(g(X, k0))",
 	"[a, b|X]", "\"abc\"", "g(X, g(Y, Z))", "g(g(X, Y), Z)", "[[X]|Y]", "f(_)",
-	"g(Y, Y)", "g(Z, f(Z))", "[Y, Y]", "[X, [a|X]]",
+	"g(Y, Y)", "g(Z, f(Z))", "[Y, Y]", "[X, [a|X]]", "[[], k0|X]", "[[], k0, k1]",
 }
 
 func c02Pair(inst int) (int, int) {
